@@ -64,6 +64,28 @@ class EnergyTransaction:
     success: bool = True
 
 
+def _quotient(numerator: int, denominator: int) -> float:
+    """numerator / denominator for non-negative integers of any size.
+
+    Python integers are unbounded, floats are not: a quotient beyond the float
+    range saturates at the largest float instead of raising OverflowError out
+    of a ledger operation whose bookkeeping is already done.
+    """
+    try:
+        return numerator / denominator
+    except OverflowError:
+        return 1.7976931348623157e308  # sys.float_info.max
+
+
+def _scaled(amount: int, factor: float) -> int:
+    """int(amount * factor); exact integer arithmetic where the float range is left."""
+    try:
+        return int(amount * factor)
+    except OverflowError:
+        num, den = factor.as_integer_ratio()
+        return amount * num // den
+
+
 @dataclass
 class MetabolicReport:
     """Comprehensive metabolic status report."""
@@ -390,11 +412,11 @@ class ATP_Store:
         if total_capacity == 0:
             ratio = 0.0
         else:
-            ratio = total_current / total_capacity
+            ratio = _quotient(total_current, total_capacity)
 
         # Account for debt
         if self._debt > 0 and total_capacity > 0:
-            ratio -= (self._debt / total_capacity) * 0.5
+            ratio -= _quotient(self._debt, total_capacity) * 0.5
 
         if ratio <= self.STARVING_THRESHOLD:
             self._state = MetabolicState.STARVING
@@ -427,7 +449,7 @@ class ATP_Store:
     def apply_debt_interest(self):
         """Apply interest to outstanding debt."""
         if self._debt > 0:
-            interest = int(self._debt * self.debt_interest)
+            interest = _scaled(self._debt, self.debt_interest)
             self._debt += interest
             if not self.silent:
                 print(f"💸 [Metabolism] Debt interest: +{interest} (total: {self._debt})")
